@@ -148,46 +148,61 @@ package parquet
 //@ loop (RepetitionTypes).MaxRep#1
 //@   invariant true
 
-// ---- read path: a failed Read/Seek on the source surfaces as an error (C10)
+// ---- read path
+// C10: a failed Read/Seek on the source surfaces as an error.
+// C08: every function consumes exactly the bytes the file format prescribes,
+//      proved against a Read that may return short counts at any time.
+// C11: a file is only accepted if it ends in <footer><length>PAR1.
 
 //@ pred isRC(x) := dyn(x) == typeid("*parquet.readCounter") && payload(x) != 0 && external(cast("*parquet.readCounter", x).r)
+//@ pred asRC(x) := cast("*parquet.readCounter", x)
 //@ pred srcOrCounter(x) := external(x) || isRC(x)
 
 //@ func (*readCounter).Read
 //@   requires r != nil && external(r.r)
-//@   modifies r, HA(p), rfault
+//@   modifies r, HA(p), srcPos, rfault
 //@   ensures r.r == old(r.r)
+//@   ensures[C08] r.n == old(r.n) + res0 && srcPos == old(srcPos) + res0
 //@   ensures[C10] err == nil ==> (rfault ==> old(rfault))
 
 //@ func getMetaDataSize
 //@   requires external(r)
-//@   modifies rfault
+//@   modifies srcPos, rfault
 //@   ensures[C10] err == nil ==> (rfault ==> old(rfault))
+//@   ensures[C11] err == nil ==> srcSize >= 8 && srcPos == srcSize && res0 == srcLE32(srcSize - 8) && srcMagic(srcSize - 4)
 
 //@ func ReadMetaData
 //@   requires external(r)
-//@   modifies heap("parquet.readCounter"), rfault
+//@   modifies heap("parquet.readCounter"), srcPos, rfault
 //@   ensures[C10] err == nil ==> (rfault ==> old(rfault))
+//@   ensures[C11] err == nil ==> srcSize >= 8 && srcMagic(srcSize - 4) && srcLE32(srcSize - 8) + 8 <= srcSize
+//@   ensures[C08] err == nil ==> srcPos == srcSize - 8 - srcLE32(srcSize - 8) + thriftLen(srcB, srcSize - 8 - srcLE32(srcSize - 8))
 
 //@ func (*Metadata).ReadFooter
 //@   requires m != nil && external(r)
-//@   modifies m, heap("parquet.readCounter"), rfault
+//@   modifies m, heap("parquet.readCounter"), srcPos, rfault
 //@   ensures[C10] err == nil ==> (rfault ==> old(rfault))
+//@   ensures[C11] err == nil ==> srcSize >= 8 && srcMagic(srcSize - 4) && srcLE32(srcSize - 8) + 8 <= srcSize
 
 //@ func PageHeader
 //@   split isRC(r)
 //@   requires srcOrCounter(r)
-//@   modifies heap("parquet.readCounter"), rfault
+//@   modifies heap("parquet.readCounter"), srcPos, rfault
 //@   ensures res0 != nil && freshsince(res0)
 //@   ensures forall q in 0..allocbound(): cast("*parquet.readCounter", q).r == old(cast("*parquet.readCounter", q).r)
 //@   ensures[C10] err == nil ==> (rfault ==> old(rfault))
+//@   ensures[C08] err == nil ==> srcPos == old(srcPos) + thriftLen(srcB, old(srcPos)) && thriftLen(srcB, old(srcPos)) >= 1
+//@   ensures[C08] err == nil && isRC(r) ==> asRC(r).n == old(asRC(r).n) || asRC(r).n == old(asRC(r).n) + thriftLen(srcB, old(srcPos))
 
 //@ func pageData
 //@   split isRC(r)
 //@   requires srcOrCounter(r) && ph != nil
-//@   modifies obj(r), rfault
+//@   modifies obj(r), srcPos, rfault
 //@   ensures freshOrNil(res0)
 //@   ensures[C10] err == nil ==> (rfault ==> old(rfault))
+//@   ensures[C08] err == nil && (pg.Codec == 1 || pg.Codec == 2) ==> srcPos == old(srcPos) + ph.CompressedPageSize
+//@   ensures[C08] err == nil && pg.Codec == 0 ==> srcPos == old(srcPos) + ph.UncompressedPageSize
+//@   ensures[C08] err == nil && isRC(r) ==> asRC(r).n == old(asRC(r).n) + (srcPos - old(srcPos))
 
 //@ func readLevels
 //@   requires width <= 4 && dyn(in) == typeid("*bytes.Buffer") && payload(in) != 0
@@ -197,7 +212,7 @@ package parquet
 
 //@ func (*RequiredField).DoRead
 //@   requires external(r)
-//@   modifies heap("parquet.readCounter"), rfault
+//@   modifies heap("parquet.readCounter"), srcPos, rfault
 //@   ensures err == nil ==> dyn(res0) == typeid("*bytes.Buffer") && payload(res0) != 0 && freshsince(cast("*bytes.Buffer", res0))
 //@   ensures[C10] err == nil ==> (rfault ==> old(rfault))
 //@ loop (*RequiredField).DoRead#1
@@ -206,7 +221,7 @@ package parquet
 //@ func (*OptionalField).DoRead
 //@   requires f != nil && external(r)
 //@   free-requires f.MaxLevels.Def <= 15 && f.MaxLevels.Rep <= 15
-//@   modifies f, HA(f.Defs), HA(f.Reps), heap("parquet.readCounter"), rfault
+//@   modifies f, HA(f.Defs), HA(f.Reps), heap("parquet.readCounter"), srcPos, rfault
 //@   ensures err == nil ==> dyn(res0) == typeid("*bytes.Buffer") && payload(res0) != 0 && freshsince(cast("*bytes.Buffer", res0))
 //@   ensures[C10] err == nil ==> (rfault ==> old(rfault))
 //@ loop (*OptionalField).DoRead#1
